@@ -168,7 +168,7 @@ def case_strategy():
         layers = draw(st.lists(layer(), min_size=0, max_size=5))
         cut = draw(st.integers(0, len(layers)))
         flat = draw(st.integers(0, 3)) == 0
-        kind = draw(st.sampled_from(["fn", "fn", "partial", "obj"]))
+        kind = draw(st.sampled_from(["fn", "fn", "partial", "obj", "bound"]))  # bound: a callable already bound to another executor
         if flat:
             script = draw(st.sampled_from([[["fut", "done"]], [["fut", "err", "E2"]], [["raise", "E0"], ["fut", "done"]]]))
         else:
